@@ -523,6 +523,7 @@ def do_pickle(env, M, plan, all_lazy_loaded, fail, stats):
             E = env.E[ei]
             scal = [d['name'] for d in M.meta[ei] if d['kind'] == 'scalar' and not d['lazy']]
             if form == 'tuple' and not scal: form = 'gen_slice'
+            for x in M.alive(ei): touch(env, M, x, lazy.get(x, ()))     # known loaded state before pickling
             if form == 'select_slice': q = E.select()[:]
             elif form == 'gen_slice': q = select('(x for x in E)', {'E': E}, {})[:]
             elif form == 'query': q = select('(x for x in E)', {'E': E}, {})
@@ -541,7 +542,6 @@ def do_pickle(env, M, plan, all_lazy_loaded, fail, stats):
                 continue
             rec['oids'] = oids
             if form == 'tuple': rec['attr'] = scal[0]
-            for x in oids: touch(env, M, x, lazy.get(x, ()))
         stats['pickle_jobs'] = stats.get('pickle_jobs', 0) + 1
         if rec['data'] is None:
             stats['pickle_jobs_cyclic'] = stats.get('pickle_jobs_cyclic', 0) + 1
